@@ -301,6 +301,25 @@ def gen_C08(tier, seed):
         q.frame(lf, 'F2', [d2])
         q.write(1, route='dict', data_arrays={d1: aid, d2: aid})
         progs.append(q.build())
+    # the cast given as a numpy.dtype *instance* (np.dtype('float64'), some_array.dtype) instead of the scalar type
+    for v, (src, cast) in enumerate([('float32', 'float64'), ('int16', 'float64'), ('uint8', 'float64'), ('float64', 'float32'),
+                                    ('int32', 'float32'), ('uint16', 'uint32'), ('float64', 'float64'), ('int16', 'int32')]):
+        p = Prog(f'C08-castinstance-{v}', {'kind': 'castinstance', 'src': src, 'cast': cast})
+        lf, _ = base_lf(p)
+        route = ['inline', 'dict', 'struct', 'h5'][v % 4]
+        a = ((np.arange(8).reshape(4, 2) * 5 + v) % 90).astype(src)
+        d = np.arange(4, dtype='float64')
+        if route == 'inline':
+            ix = p.channel(lf, 'IX', data=d)
+            ch = p.channel(lf, 'CH', data=a, cast=cast, cast_as_dtype=True)
+            arrs = {}
+        else:
+            ix = p.channel(lf, 'IX')
+            ch = p.channel(lf, 'CH', cast=cast, cast_as_dtype=True)
+            arrs = {ix: p.array(d), ch: p.array(a)}
+        p.frame(lf, 'FR', [ix, ch])
+        p.write(1, route='none' if route == 'inline' else route, data_arrays=arrs)
+        progs.append(p.build())
     # one frame listing two channels of one name (copy numbers 0 and 1, different shapes and dtypes), or the same channel twice:
     # refused, or every record is as long as the descriptors say
     for v in range(4):
@@ -538,6 +557,19 @@ def gen_C05(tier, seed):
             p.add(lf, 'equipment', 'EQ3', vertical_depth=depth(), weight=size())
         p.write(1)
         progs.append(p.build())
+    # text values of PARAMETER VALUES / AXIS COORDINATES that only look like numbers to some parsers ('NaN', 'inf', '1e3', '0x10'):
+    # the library documents the conversion of digit strings ('12', '12.5') - everything else the user assigned as text stays text
+    for i, texts in enumerate([['NaN'], ['inf'], ['-Infinity'], ['2E5'], ['1e3', 'nan'], ['1e-3'], ['0x10'], ['Near'], ['1,5'], ['12 m']]):
+        p = Prog(f'C05-textnumbers-{i}', {'kind': 'textnumbers', 'texts': texts})
+        lf, o = base_lf(p)
+        c = p.channel(lf, 'CH', data=np.arange(3, dtype='float64'))
+        p.frame(lf, 'FR', [c])
+        p.add(lf, 'parameter', 'PAR', values=L(S(texts[0])))
+        p.add(lf, 'axis', 'AX', coordinates=L(*[S(t) for t in texts]))
+        ax2 = p.add(lf, 'axis', 'AX2')
+        p.set(ax2, 'coordinates', L(*[S(t) for t in texts]))
+        p.write(1)
+        progs.append(p.build())
     # FRAME ENCRYPTED takes booleans, 0/1 numbers and yes/no words
     for i, v in enumerate([BOOL(True), BOOL(False), I(1), F(0.0), NOJ(S('yes')), NOJ(S('F')), NOJ(S('maybe')), NOJ(I(2))]):
         p = Prog(f'C05-encrypted-{i}', {'kind': 'encrypted'})
@@ -696,6 +728,26 @@ def gen_C07(tier, seed):
         p.write(1, fname='second.dlis')
         p.set_origin_ref(a, 9 if what not in ('origin-channel', 'both') else None) if False else None
         progs.append(p.build())
+    # every class once with an explicit origin_reference (that of a second origin), the defining origin having a reference of its
+    # own choosing (3) or the library's (0): the object carries the origin the user chose
+    for i, defref in enumerate([3, None, 200]):
+        p = Prog(f'C07-explicitorigin-{i}', {'kind': 'explicitorigin', 'defref': defref or 0})
+        p.file(1)
+        lf = p.lf(1, fh_id='EXPLICIT-ORIGINS')
+        p.origin(lf, name='DEFINING', origin_reference=defref)
+        p.origin(lf, name='SECOND', fsn=2, origin_reference=7)
+        refs = {}
+        for cls in ORDER:
+            if cls in ('origin', 'frame', 'channel'):
+                continue
+            kw = make_kwargs(cls, rng, refs, 'none', None)
+            refs.setdefault(CLASSES[cls][0], []).append(p.add(lf, cls, f'X-{cls}'.upper()[:20], origin_reference=7, **kw))
+        c1 = p.channel(lf, 'CH-EXPLICIT', data=np.arange(3, dtype='float64'), origin_reference=7)
+        c2 = p.channel(lf, 'CH-DEFAULT', data=np.arange(3, dtype='float64'))
+        p.frame(lf, 'FR-EXPLICIT', [c1], origin_reference=7)
+        p.frame(lf, 'FR-DEFAULT', [c2])
+        p.write(1)
+        progs.append(p.build())
     # an object renamed to a name another object of its set already has: identities stay distinct, references keep their target
     for i in range(4):
         p = Prog(f'C07-renamecollide-{i}', {'kind': 'renamecollide'})
@@ -713,6 +765,20 @@ def gen_C07(tier, seed):
         if i >= 2:
             p.rename(za, 'B')          # and the first one takes the name that became free
         p.write(1, fname='second.dlis')
+        progs.append(p.build())
+    # ... and a name that lost one of its objects by a rename gets a new object: the copy numbers of that name stay distinct
+    for i in range(3):
+        p = Prog(f'C07-renameaway-{i}', {'kind': 'renameaway'})
+        lf, o = base_lf(p)
+        c = p.channel(lf, 'CH', data=np.arange(3, dtype='float64'))
+        p.frame(lf, 'FR', [c])
+        z0 = p.add(lf, 'zone', 'A', description=S('copy 0'))
+        z1 = p.add(lf, 'zone', 'A', description=S('copy 1'))
+        z2 = p.add(lf, 'zone', 'A', description=S('copy 2')) if i else None
+        p.rename(z0 if i != 2 else z1, 'B')
+        z3 = p.add(lf, 'zone', 'A', description=S('added after the rename'))
+        p.add(lf, 'group', 'G', object_list=L(*[R(z) for z in (z0, z1, z2, z3) if z]))
+        p.write(1)
         progs.append(p.build())
     progs += foreign_reference_programs('C07')
     return progs
@@ -1000,6 +1066,26 @@ def gen_C13(tier, seed):
                         opts = {'from': 1, 'to': len(s)}
                     p.write(1, **opts)
                     progs.append(p.build())
+    # several frames in one write (one logical file, or one frame in each of two logical files), indexed and row-numbered:
+    # every frame carries the statistics of its own rows
+    for i in range(6 if tier == 'quick' else 30):
+        p = Prog(f'C13-multiframe-{i}', {'kind': 'multiframe'})
+        p.file(1)
+        nlf = 1 + i % 2
+        for k in range(nlf):
+            lf = p.lf(1, lf=k + 1, fh_id=f'LF{k}', fh_seq=k + 1)
+            sn = f'S{k}'
+            p.origin(lf, name=f'O{k}', fsn=k + 1, set_name=sn)
+            for f in range(3 - nlf + 1):
+                seq = [[0, 1, 2, 3], [50, 40, 30], [5, 7, 12, 13, 20], [9, 9, 9]][(i + f + k) % 4]
+                ix = p.channel(lf, f'IX{f}', data=np.array(seq, dtype=['float64', 'int16', 'uint8', 'float32'][(i + f) % 4]), set_name=sn)
+                ot = p.channel(lf, f'OT{f}', data=rand_array(rng, 'float32', len(seq)), set_name=sn)
+                indexed = (i + f + k) % 3 != 2
+                p.frame(lf, f'FR{f}', [ix, ot], set_name=sn, **({'index_type': EN('FrameIndexType', 'BOREHOLE_DEPTH')} if indexed else {}))
+        p.write(1)
+        if i % 3 == 0:
+            p.write(1, fname='again.dlis')
+        progs.append(p.build())
     # index values and differences beyond 2^31 (int32 / uint32 / float64 holding integers): the exact statistics are judged
     # on their IEEE images
     wides = [('int32', [-2000000000, 500000000]), ('int32', [2000000000, -2000000000]), ('int32', [-2147483648, 0, 2147483647]),
@@ -1202,6 +1288,33 @@ def gen_C18(tier, seed):
             p.frame(lf, f'FR{k}', [c], set_name=sn)
         p.write(1, valid=mode != 'shared_set', either=mode == 'shared_set')
         progs.append(p.build())
+    # a set shared by two logical files (same class, same set name) while each file also has classes the other lacks, registered
+    # before or after the shared one: refused, or written without cross-contamination
+    k = 0
+    for shared in ('parameter', 'zone', 'comment'):
+        for a_extra in ((), ('axis',), ('axis', 'tool')):
+            for b_extra in ((), ('zone',) if shared != 'zone' else ('message',), ('equipment', 'zone') if shared != 'zone' else ('equipment', 'message')):
+                for early in (True, False):
+                    k += 1
+                    if tier == 'quick' and k % 3:
+                        continue
+                    p = Prog(f'C18-sharedmix-{k}', {'kind': 'sharedmix', 'fringe': True, 'shared': shared})
+                    p.file(1)
+                    for n, extra in enumerate((a_extra, b_extra)):
+                        lf = p.lf(1, lf=n + 1, fh_id=f'LF{n}', fh_seq=n + 1)
+                        sn = f'OWN-{n}'
+                        p.origin(lf, name=f'O{n}', fsn=n + 1, set_name=sn)
+                        c = p.channel(lf, f'CH{n}', data=np.arange(3, dtype='float64'), set_name=sn)
+                        p.frame(lf, f'FR{n}', [c], set_name=sn)
+                        if early:
+                            for cls in extra:
+                                p.add(lf, cls, f'EXTRA-{cls}-{n}'.upper(), set_name=sn)
+                        p.add(lf, shared, f'SHARED-{n}')            # the default set name in both logical files
+                        if not early:
+                            for cls in extra:
+                                p.add(lf, cls, f'EXTRA-{cls}-{n}'.upper(), set_name=sn)
+                    p.write(1, valid=False, either=True)
+                    progs.append(p.build())
     # one channel set per frame, the same channel names in each (distinguished by their origins): every frame has its own rows
     for i in range(6 if tier == 'quick' else 40):
         p = Prog(f'C18-framesets-{i}', {'kind': 'framesets'})
